@@ -116,6 +116,10 @@ class _P:
                     self.i += 1
                     return FrozenDict(fn)
                 self.expect("@@")
+        m = re.compile(r"(-?[0-9]+)\.\.(-?[0-9]+)").match(s, self.i)
+        if m:                                   # TLC prints an interval set as a..b
+            self.i = m.end()
+            return frozenset(range(int(m.group(1)), int(m.group(2)) + 1))
         m = re.compile(r"-?[0-9]+").match(s, self.i)
         if m:
             self.i = m.end()
